@@ -108,7 +108,10 @@ Proof. intros [H D]. orth_hyps H. revert D; unf; intros D. repeat split; nsatz_o
 Lemma reexpress_is_congruence R S : rotation R ->
   sym_to_m33 (reexpressSymMat33 ROps R S) = sym_congr ROps R S.
 Proof. intros H. dm33 R; dsym S. generalize (rot_cofactor _ _ _ _ _ _ _ _ _ H).
-  intros [[C1 [C2 C3]] [[C4 [C5 C6]] [C7 [C8 C9]]]]. destruct H as [H _]. orth_hyps H. unf.
+  intros [[C1 [C2 C3]] _]. destruct H as [[H _] _].
+  cbv [I33] in H; vunf; cbv [m33_mul m33_T m33_c0 m33_c1 m33_c2 v3_dot v3_0 v3_1 v3_2 ROps nadd nmul] in H.
+  (* third row := first x second; what remains of orthogonality is |r0| = |r1| = 1, r0.r1 = 0 *)
+  injection H; clear H; intros _ _ _ _ N1 _ _ N01 N0. subst. unf.
   teq. all: nsatz_or_fail. Qed.
 
 (** generic 3x3 facts *)
@@ -355,6 +358,90 @@ Lemma ai_shift_zero P : ai_shift ROps P (0,0,0) = P.
 Proof. dai P. unf. teq; ring. Qed.
 
 
+(** ** G. shifting IS recomputing about the new origin: parallel-axis theorem for every point-mass cloud *)
+Fixpoint cloud_mass (pts : list (Vec3 R * R)) : R := match pts with nil => 0 | (p,m) :: r => m + cloud_mass r end.
+Fixpoint cloud_moment (pts : list (Vec3 R * R)) : Vec3 R :=
+  match pts with nil => (0,0,0) | (p,m) :: r => v3_add ROps (v3_scale ROps m p) (cloud_moment r) end.
+Definition cloud_translate (s:Vec3 R) (pts : list (Vec3 R * R)) : list (Vec3 R * R) :=
+  map (fun pm => (v3_sub ROps (fst pm) s, snd pm)) pts.
+(** 2(a.b) I - a b^T - b a^T *)
+Definition sym_cross_term (a b:Vec3 R) : SymMat33 R :=
+  let '(a0,a1,a2) := a in let '(b0,b1,b2) := b in
+  ((2*(a1*b1+a2*b2), 2*(a0*b0+a2*b2), 2*(a0*b0+a1*b1)), (-(a0*b1+a1*b0), -(a0*b2+a2*b0), -(a1*b2+a2*b1))).
+Lemma cloud_inertia_translate pts s :
+  cloud_inertia ROps (cloud_translate s pts) =
+  sym_add ROps (sym_sub ROps (cloud_inertia ROps pts) (sym_cross_term (cloud_moment pts) s)) (in_pointMassAt ROps s (cloud_mass pts)).
+Proof. induction pts as [|[p m] r IH]; cbn [cloud_translate map cloud_inertia cloud_mass cloud_moment fst snd].
+  - d3 s. cbv [sym_cross_term]; unf. teq; ring.
+  - fold (cloud_translate s r). rewrite IH.
+    destruct (cloud_inertia ROps r) as [[[a b] c] [[d e] f]]. destruct (cloud_moment r) as [[mx my] mz]. d3 p; d3 s.
+    cbv [sym_cross_term]; unf. teq; ring. Qed.
+Lemma cloud_mass_moment_translate pts s :
+  cloud_mass (cloud_translate s pts) = cloud_mass pts /\
+  cloud_moment (cloud_translate s pts) = v3_sub ROps (cloud_moment pts) (v3_scale ROps (cloud_mass pts) s).
+Proof. induction pts as [|[p m] r [IH1 IH2]]; cbn [cloud_translate map cloud_mass cloud_moment fst snd].
+  - d3 s. split; [reflexivity|]. vunf. teq; ring.
+  - fold (cloud_translate s r). rewrite IH1, IH2. split; [reflexivity|].
+    destruct (cloud_moment r) as [[mx my] mz]. d3 p; d3 s. vunf. teq; ring. Qed.
+(** the inertia of the cloud about the point s, computed from scratch, is what the translated kernels
+    shiftToMassCenter / shiftFromMassCenter produce from the inertia about the origin *)
+Lemma cloud_shift_is_parallel_axis pts s com : v3_scale ROps (cloud_mass pts) com = cloud_moment pts ->
+  cloud_inertia ROps (cloud_translate s pts) =
+  in_shiftFromMassCenter ROps (in_shiftToMassCenter ROps (cloud_inertia ROps pts) com (cloud_mass pts)) (v3_sub ROps com s) (cloud_mass pts).
+Proof. intros H. rewrite cloud_inertia_translate, <- H.
+  destruct (cloud_inertia ROps pts) as [[[a b] c] [[d e] f]]. d3 com; d3 s. set (M := cloud_mass pts).
+  cbv [sym_cross_term]; unf. teq; ring. Qed.
+(** ... and what SpatialInertia_::shift produces: mass, first moment and inertia of the shifted spatial
+    inertia are those of the cloud re-measured from the new origin *)
+Lemma cloud_si_shift pts m p G S :
+  m = cloud_mass pts -> v3_scale ROps m p = cloud_moment pts -> sym_scale ROps m G = cloud_inertia ROps pts ->
+  let M' := si_shift ROps (m,p,G) S in
+  si_m M' = cloud_mass (cloud_translate S pts) /\
+  v3_scale ROps (si_m M') (si_p M') = cloud_moment (cloud_translate S pts) /\
+  sym_scale ROps (si_m M') (si_G M') = cloud_inertia ROps (cloud_translate S pts).
+Proof. intros Hm Hp HG M'. destruct (cloud_mass_moment_translate pts S) as [E1 E2].
+  split; [|split].
+  - rewrite E1. exact Hm.
+  - rewrite E2, <- Hp, <- Hm. d3 p; d3 S. unfold M'. unf. teq; ring.
+  - unfold M'. change (si_m (si_shift ROps (m,p,G) S)) with m. rewrite si_shift_is_parallel_axis, HG.
+    rewrite (cloud_shift_is_parallel_axis pts S p); rewrite <- Hm; [reflexivity|exact Hp]. Qed.
+
+(** kinetic energy of a rigid cloud: V.(M V) = sum m |v + w x p|^2 >= 0, so the spatial inertia of every
+    point-mass cloud with nonnegative masses is positive semidefinite as a 6x6 form *)
+Fixpoint cloud_ke2 (pts : list (Vec3 R * R)) (V:SpatialVec R) : R :=
+  match pts with nil => 0 | (p,m) :: r => m * v3_normSqr ROps (v3_add ROps (snd V) (v3_cross ROps (fst V) p)) + cloud_ke2 r V end.
+Lemma si_quadratic_form_of_cloud pts m p G V :
+  m = cloud_mass pts -> v3_scale ROps m p = cloud_moment pts -> sym_scale ROps m G = cloud_inertia ROps pts ->
+  sv_dot ROps V (si_mul ROps (m,p,G) V) = cloud_ke2 pts V.
+Proof. intros Hm Hp HG.
+  assert (Q : sv_dot ROps V (si_mul ROps (m,p,G) V) =
+              sym_quad ROps (sym_scale ROps m G) (fst V) + 2 * v3_dot ROps (v3_scale ROps m p) (v3_cross ROps (snd V) (fst V))
+              + m * v3_normSqr ROps (snd V)).
+  { d3 p; dsym G; dsv V. unf. ring. }
+  rewrite Q, Hp, HG, Hm. clear. induction pts as [|[q mq] r IH]; cbn [cloud_mass cloud_moment cloud_inertia cloud_ke2].
+  - dsv V. unf. ring.
+  - rewrite <- IH. destruct (cloud_inertia ROps r) as [[[a b] c] [[d e] f]]. destruct (cloud_moment r) as [[mx my] mz].
+    d3 q; dsv V. unf. ring. Qed.
+Lemma cloud_ke2_nonneg pts V : masses_nonneg pts -> 0 <= cloud_ke2 pts V.
+Proof. induction 1 as [|[p m] r Hm Hr IH]; cbn [cloud_ke2]. - lra.
+  - simpl in Hm. generalize (v3_normSqr_nonneg (v3_add ROps (snd V) (v3_cross ROps (fst V) p))). intros. nra. Qed.
+Lemma cloud_spatial_inertia_psd pts m p G V : masses_nonneg pts ->
+  m = cloud_mass pts -> v3_scale ROps m p = cloud_moment pts -> sym_scale ROps m G = cloud_inertia ROps pts ->
+  0 <= sv_dot ROps V (si_mul ROps (m,p,G) V).
+Proof. intros H Hm Hp HG. rewrite (si_quadratic_form_of_cloud pts m p G V Hm Hp HG). apply cloud_ke2_nonneg, H. Qed.
+
+(** ** relative velocity / acceleration in F (translated from SpatialAlgebra.h): the composition laws they invert *)
+Lemma findRelativeVelocityInF_composes p VA VB :
+  VB = sv_add ROps (sa_shiftVelocityBy ROps VA p) (sa_findRelativeVelocityInF ROps p VA VB).
+Proof. d3 p; dsv VA; dsv VB. unf. teq; ring. Qed.
+(** a_B = a_A + b_A x p + w_A x (w_A x p) + 2 w_A x v_AB + a_AB,  b_B = b_A + w_A x w_AB + b_AB *)
+Lemma findRelativeAccelerationInF_composes p VA AA VB AB :
+  let Vrel := sa_findRelativeVelocityInF ROps p VA VB in
+  let Arel := sa_findRelativeAccelerationInF ROps p VA AA VB AB in
+  AB = sv_add ROps (sa_shiftAccelerationBy ROps AA (fst VA) p)
+         (sv_add ROps Arel (v3_cross ROps (fst VA) (fst Vrel), v3_scale ROps 2 (v3_cross ROps (fst VA) (snd Vrel)))).
+Proof. d3 p; dsv VA; dsv AA; dsv VB; dsv AB. unf. teq; ring. Qed.
+
 (** ** non-vacuity: the hypotheses used above are satisfiable on concrete non-trivial inputs *)
 Example rotation_example : rotation ((2/3,-1/3,2/3),(2/3,2/3,-1/3),(-1/3,2/3,2/3)).
 Proof. split; [split|]; cbv [I33]; vunf; [teq; field | teq; field | field]. Qed.
@@ -368,3 +455,7 @@ Proof. apply isValid_iff. generalize (slopR_pos ((16,5,17),(-6,0,2))). cbv [tria
 Example invalid_example : in_isValid ROps ((1,1,3),(0,0,0)) = false.
 Proof. apply invalid_rejected. right; right; right; left. cbv [slopR sigR]; unf.
   assert (E: Rmax (1+1+3) 1 = 1+1+3) by (apply Rmax_left; lra). rewrite E. lra. Qed.
+Example cloud_translate_example :
+  cloud_mass (((1,2,0),3) :: ((0,-1,1),2) :: nil) = 5 /\ cloud_moment (((1,2,0),3) :: ((0,-1,1),2) :: nil) = (3,4,2) /\
+  v3_scale ROps 5 (3/5,4/5,2/5) = cloud_moment (((1,2,0),3) :: ((0,-1,1),2) :: nil).
+Proof. cbn [cloud_mass cloud_moment]; vunf. repeat split; try (teq; field); ring. Qed.
